@@ -257,6 +257,20 @@ CLAIMED = {
                             "not covered."),
         technique="Lean 4 proof over traced converters + kernel-decided key cover + metamorphic unit oracle",
         design="5/C17"),
+    "C18": dict(
+        text=("Lean decision-logic theorems about a model of the numeric acceptance layer (pin, duct, core and boundary-condition "
+              "checks): every member of each invalid pin class (non-positive dimension, pitch < diameter, clad > radius, wire "
+              "thicker than the pin gap, bundle wider than the smallest duct) and duct class (odd number of values, duct not "
+              "smaller than the pitch) is rejected, and acceptance implies exactly the positivity / fit facts the geometry and "
+              "step models need.  PARTIAL: the model is tied to the real reader by differential classification on valid "
+              "generated inputs and single-fault perturbations (21 fault classes across the input keys); independently every "
+              "invalid class must end in SystemExit before any temperature is computed and every valid generated input must "
+              "be set up and swept (60 planes) without exception or hang."),
+        note=COMMON_NOTE + ("hand model + differential classification; ConfigObj parsing and schema validation are exercised, "
+                            "not modelled; which inputs count as impossible (the fault classes) is a hand-written "
+                            "specification in harness/checks/c18.py."),
+        technique="Lean 4 proof (decision logic, split_ifs) over hand acceptance model + differential classification + fault-class oracle",
+        design="5/C18"),
     "C19": dict(
         text=("Lean theorems about the trace of hotspot.calculate_temps (two direct and two statistical subfactor rows, "
               "three cumulative terms; any ordered field; the square root is opaque and only assumed zero at zero, "
